@@ -90,12 +90,12 @@ def _compare(base, other, what, key, fails):
             fails.append(fail("surpluses_differ", "%s: component %r shapes %r vs %r" % (what, lv, a.shape, None if b is None else b.shape), key))
             return
         sc = max(1.0, float(np.max(np.abs(a))))
-        if float(np.max(np.abs(a - b))) > 1e-9 * sc:
+        if not (float(np.max(np.abs(a - b))) <= 1e-9 * sc):
             i = int(np.argmax(np.abs(a - b)))
             fails.append(fail("surpluses_differ", "%s: component %r entry %d: %r vs %r" % (what, lv, i, a.ravel()[i], b.ravel()[i]), key))
             return
     sc = max(1.0, float(np.max(np.abs(den0))))
-    if den0.shape != den1.shape or float(np.max(np.abs(den0 - den1))) > 1e-9 * sc:
+    if den0.shape != den1.shape or not (float(np.max(np.abs(den0 - den1))) <= 1e-9 * sc):
         i = int(np.argmax(np.max(np.abs(den0 - den1), axis=1))) if den0.shape == den1.shape else 0
         fails.append(fail("densities_differ", "%s: at %r: %r vs %r" % (what, (LATTICE3 if len(den0) == len(LATTICE3) else LATTICE)[i], den0[i].tolist(), den1[i].tolist() if den0.shape == den1.shape else den1.shape), key))
 
@@ -154,7 +154,7 @@ def _uniform_case(case):
         other = _run_uniform(c, reuse, thr)
         _compare(base[:4], other[:4], "reuse=%s threshold=%s vs reuse=False threshold=200" % (reuse, thr), key, fails)
         sc = max(1.0, float(np.max(np.abs(other[3]))))
-        if float(np.max(np.abs(other[3] - other[4]))) > 1e-9 * sc:
+        if not (float(np.max(np.abs(other[3] - other[4]))) <= 1e-9 * sc):
             fails.append(fail("second_evaluation_differs", "reuse=%s threshold=%s: densities change when the operation is performed again" % (reuse, thr), key))
     return {"failures": fails, "canon": core.config_key(c), "nontrivial": True, "outcome": tuple(round(float(x), 8) for x in base[3].ravel()[:3]),
             "evals": len(VARIANTS)}
@@ -188,7 +188,36 @@ def _natural_case(case):
     return {"failures": fails, "canon": core.config_key(c) + str(history), "nontrivial": True, "outcome": len(base[1]), "evals": 2}
 
 
+def _sweep_case(case):
+    """several estimation problems (different lambda / data / labels) are solved one after the other in ONE process, each with completely
+    fresh objects - a parameter sweep.  For every element of the sequence the instance with reuse on must agree with the instance with
+    reuse off, and with what the same problem gives when it is the first one of the sequence (nothing may survive from the earlier
+    objects)."""
+    seq, history = case["config"]["sequence"], case["history"]
+    fails = []
+    firsts = {}
+    for pos, c in enumerate(seq):
+        key = {"grid": c["kind"], "oracle_kind": "sequence_of_fresh_objects"}
+        if c["kind"] == "dw":
+            base = _run_dw(c, history, False, None, interp_each_step=False)
+            other = _run_dw(c, history, True, None)
+        else:
+            base = _run_uniform(c, False, None)[:4]
+            other = _run_uniform(c, True, None)[:4]
+        _compare(base, other, "problem %d of the sequence %r: reuse=True vs reuse=False" % (pos, [(x["data"], x["labels"], x["lambda"]) for x in seq]), key, fails)
+        ck = core.config_key(c)
+        if ck in firsts:
+            _compare(firsts[ck], base, "problem %d of the sequence: same problem solved earlier in the sequence" % pos, key, fails)
+        else:
+            firsts[ck] = base
+        if fails:
+            break
+    return {"failures": fails, "canon": core.config_key(case["config"]) + str(history), "nontrivial": True, "outcome": len(seq), "evals": 2 * len(seq)}
+
+
 def run_case(case):
+    if case["config"]["kind"] == "sweep":
+        return _sweep_case(case)
     if case["config"]["kind"] == "dw":
         return _dw_case(case)
     if case["config"]["kind"] == "natural":
@@ -241,6 +270,26 @@ def main(ctx):
                 for h in ([[[1, 0.5, 0.5 + 1 / 32]]], [[[0, 0.0, 1 / 32]], [[1, 0.0, 1 / 32]]])]
     for case, res in zip(nat, ctx.map(nat, chunksize=1)):
         ctx.absorb(case, res, group="natural_size")
+    # parameter sweeps: every ordered pair (and the triples that return to the first problem) of a small menu of problems, solved with
+    # fresh objects one after the other in one process
+    pm = [{"kind": "dw", "data": "mixed", "labels": "frac", "lambda": 0.1, "lmax": 2}, {"kind": "dw", "data": "mixed", "labels": "frac", "lambda": 0.001, "lmax": 2},
+          {"kind": "dw", "data": "mixed", "labels": "frac", "lambda": 0.0, "lmax": 2}, {"kind": "dw", "data": "cluster", "labels": "none", "lambda": 0.1, "lmax": 2},
+          {"kind": "dw", "data": "mixed", "labels": "none", "lambda": 0.001, "lmax": 2, "boundary": True}]
+    um = [{"kind": "uniform", "data": "mixed", "labels": "pm1", "lambda": lam, "lmin": 1, "lmax": 3, "masslumping": False} for lam in (0.1, 0.0)] + \
+         [{"kind": "uniform", "data": "cluster", "labels": "none", "lambda": 0.1, "lmin": 1, "lmax": 3, "masslumping": False}]
+    sweeps = []
+    hist = [[[0, 0.0, 0.25]], [[1, 0.5, 0.75], [0, 0.0, 0.125]]]
+    for menu_ in (pm, um):
+        for x, y in itertools.permutations(menu_, 2):
+            sweeps.append({"config": {"kind": "sweep", "sequence": [x, y]}, "history": hist})
+            sweeps.append({"config": {"kind": "sweep", "sequence": [x, y, x]}, "history": hist})
+    for x in pm[:2]:
+        for y in um[:2]:
+            sweeps.append({"config": {"kind": "sweep", "sequence": [x, y, x]}, "history": hist})
+            sweeps.append({"config": {"kind": "sweep", "sequence": [y, x, y]}, "history": hist})
+    for case, res in zip(sweeps, ctx.map(sweeps, chunksize=1)):
+        ctx.absorb(case, res, group="sweep")
+    ctx.bounds["sweep_sequences"] = len(sweeps)
     ctx.bounds["natural_size_cases"] = len(nat)
     ctx.bounds["uniform_cases"] = len(cases)
     ctx.bounds["variants_per_case"] = [list(map(str, v)) for v in VARIANTS]
